@@ -131,18 +131,22 @@ def _w_sets(job, chk):
 
 def _w_bfs(job, chk):
     """add/remove histories over 5 nodes on ONE long-lived RendezvousHash per path (replayed)."""
-    tier, hname = job
+    tier, hname, pattern = job
     hf = {"murmur": None, "const": const_hash, "parity": parity_hash}[hname]
+    # when the long-lived object is queried between membership changes: after every change, after every
+    # second one (either parity), or not at all before the final lookups
+    queried = {"all": lambda i: True, "even": lambda i: i % 2 == 0, "odd": lambda i: i % 2 == 1, "never": lambda i: False}[pattern]
     nodes = UNIVERSE[2:7]  # contains the tie pair
     keys = corpus(300 if tier == "quick" else 1000)
     max_depth = 6 if tier == "quick" else 8
 
     def build(hist):
         r = RendezvousHash() if hf is None else RendezvousHash(hash_function=hf)
-        for op, nd in hist[:-1]:
+        for i, (op, nd) in enumerate(hist[:-1]):
             (r.add_node if op == "+" else r.remove_node)(nd)
-            for k in keys[:40]:  # the object is queried all along its life, as a client would
-                r.get_node(k)
+            if queried(i):
+                for k in keys[:40]:  # the object is queried along its life, as a client would
+                    r.get_node(k)
         for op, nd in hist[-1:]:
             (r.add_node if op == "+" else r.remove_node)(nd)
         return r
@@ -170,17 +174,17 @@ def _w_bfs(job, chk):
                 i = next(i for i in range(len(keys)) if place[i] != ref[i])
                 chk.violation(f"history-dependent-or-wrong|{hname}", f"after history {list(hist) + [ev]} {keys[i]!r} is on "
                               f"{place[i]!r}; the rule for the node set {sorted(nxt)} gives {ref[i]!r}",
-                              {"part": "bfs", "hash": hname, "history": [list(h) for h in hist] + [list(ev)], "key": repr(keys[i])})
+                              {"part": "bfs", "hash": hname, "pattern": pattern, "history": [list(h) for h in hist] + [list(ev)], "key": repr(keys[i])})
             # minimal disruption against the predecessor state
             for i, k in enumerate(keys):
                 if before[i] != place[i]:
                     if ev[0] == "-" and before[i] != nd:
                         chk.violation(f"removal-moves-foreign-keys|{hname}", f"removing {nd} moved {k!r} from {before[i]!r} to {place[i]!r}",
-                                      {"part": "bfs", "hash": hname, "history": [list(h) for h in hist] + [list(ev)], "key": repr(k)})
+                                      {"part": "bfs", "hash": hname, "pattern": pattern, "history": [list(h) for h in hist] + [list(ev)], "key": repr(k)})
                         break
                     if ev[0] == "+" and place[i] != nd:
                         chk.violation(f"addition-moves-keys-elsewhere|{hname}", f"adding {nd} moved {k!r} from {before[i]!r} to {place[i]!r}",
-                                      {"part": "bfs", "hash": hname, "history": [list(h) for h in hist] + [list(ev)], "key": repr(k)})
+                                      {"part": "bfs", "hash": hname, "pattern": pattern, "history": [list(h) for h in hist] + [list(ev)], "key": repr(k)})
                         break
             if nxt not in seen:
                 seen[nxt] = (hist + (ev,), place)
@@ -188,7 +192,7 @@ def _w_bfs(job, chk):
                 i = next(i for i in range(len(keys)) if place[i] != seen[nxt][1][i])
                 chk.violation(f"history-dependent|{hname}", f"node set {sorted(nxt)} reached by {list(hist) + [ev]} places {keys[i]!r} on "
                               f"{place[i]!r}, reached by {list(seen[nxt][0])} on {seen[nxt][1][i]!r}",
-                              {"part": "bfs", "hash": hname, "history": [list(h) for h in hist] + [list(ev)], "key": repr(keys[i])})
+                              {"part": "bfs", "hash": hname, "pattern": pattern, "history": [list(h) for h in hist] + [list(ev)], "key": repr(keys[i])})
             # keep exploring histories (not only states): a history-dependent hasher differs per path
             if len(hist) + 1 < max_depth and (nxt not in seen or len(hist) < 3 or seen[nxt][0] == hist + (ev,)):
                 frontier.append(hist + (ev,))
@@ -294,7 +298,7 @@ def run(chk):
     tier = chk.tier
     sets = [(ns, tier) for size in range(8, 0, -1) for ns in itertools.combinations(UNIVERSE, size)]
     sets.sort(key=lambda j: -(len(j[0]) if len(j[0]) <= (6 if tier == "thorough" else 5) else 1))
-    runner.parallel(chk, _w_all, [("bfs", (tier, h)) for h in ("murmur", "const", "parity")] + [("hash", tier)]
+    runner.parallel(chk, _w_all, [("bfs", (tier, h, pat)) for h in ("murmur", "const", "parity") for pat in ("all", "even", "odd", "never")] + [("hash", tier)]
                     + [("sets", j) for j in sets])
     seeds = [0, 1, 2, 12345, 4294967295] if tier == "quick" else [0, 1, 2, 3, 7, 12345, 99999, 4294967295]
     sub = chk.fresh()
@@ -323,7 +327,7 @@ def replay(detail):
         return [] if got == ref else [f"{keys[0]!r}: {got!r} != {ref!r}"]
     tmp = runner.Check(PROPERTY, LEVEL, "quick", 0)
     if part == "bfs":
-        _w_bfs(("quick", detail["hash"]), tmp)
+        _w_bfs(("quick", detail["hash"], detail.get("pattern", "all")), tmp)
     elif part == "hash":
         _w_hash("quick", tmp)
     else:
